@@ -348,6 +348,8 @@ def rule_memo_keys(ctx, rep, rid: str, modules=("compiler", "parser", "vm", "con
             n += 1
             key = f"{f.qual}:memo:{short(cache, 30)}"
             key_names = {x.id for x in ast.walk(keyexpr) if isinstance(x, ast.Name)} if keyexpr is not None else set()
+            # a table that lives on one of the arguments (obj._bound[...]) is keyed by that argument as well
+            key_names |= {x.id for x in ast.walk(cache) if isinstance(x, ast.Name)} - {"self"}
             cs = ctx.cg.site_of_call.get(id(call))
             tgt = cs.targets[0] if cs is not None and cs.kind == "resolved" and cs.targets else None
             missing = []
@@ -466,3 +468,92 @@ def _computed_constant(a: ast.AST, at: ast.AST, f: Func) -> Optional[str]:
                 return f"the computed value `{norm(s)[:40]}`"
         return None
     return computed(a)
+
+
+# ---- a fact recorded by one name resolver is recorded whichever resolver answers first ------------------------
+def _name_resolvers(comp) -> Dict[str, Tuple[Func, str, str]]:
+    """Compiler methods that look a name up in one of the compiler's tables and return its index:
+    `if name in self.T: return self.T.index(name)`.  method name -> (function, parameter, table)."""
+    out: Dict[str, Tuple[Func, str, str]] = {}
+    for m in comp.methods.values():
+        if isinstance(m.node, ast.Lambda):
+            continue
+        ps = [p for p in m.params() if p != "self"]
+        if len(ps) != 1:
+            continue
+        p = ps[0]
+        if any(isinstance(c, ast.Call) and isinstance(c.func, ast.Attribute) and c.func.attr in ("append", "add", "insert", "extend") for c in m.own_nodes()):
+            continue  # registers the name when it is missing: not a pure look-up
+        for r in m.own_nodes():
+            if isinstance(r, ast.Return) and isinstance(r.value, ast.Call) and isinstance(r.value.func, ast.Attribute) and r.value.func.attr == "index" and r.value.args and norm(r.value.args[0]) == p and norm(r.value.func.value).startswith("self."):
+                out[m.name] = (m, p, norm(r.value.func.value))
+    return out
+
+
+def rule_resolver_side_effects(ctx, rep, rid: str) -> None:
+    """The compiler resolves an identifier by asking its tables in turn (cell variable? local? free variable?) and
+    takes the first answer.  A fact that one of these look-ups records for a particular name (`arguments` was
+    mentioned: build the object at run time) is lost whenever an earlier look-up answers for that name, unless that
+    one records it as well."""
+    rep.rule(rid, "when one of the compiler's name look-ups records a fact about a particular name (an assignment to compiler state under `name == <literal>`), no other look-up of the same family is asked before it at any resolution site - or that one records the same fact: otherwise the fact is missing exactly for the names the earlier table holds (a captured `arguments`)", floor=0)
+    comp = ctx.tree.class_named("Compiler")
+    res = _name_resolvers(comp)
+    if len(res) < 2:
+        raise AnalysisError(f"{rid}: the compiler's name look-ups were not recognised ({sorted(res)})")
+    # positive control: the shape of a keyed side effect
+    ctl = ast.parse("def g(self, name):\n    if name in self.locals:\n        if name == 'arguments':\n            self._uses = True\n        return self.locals.index(name)\n").body[0]
+    if not _keyed_effects_of(ctl, "name"):
+        raise AnalysisError(f"{rid}: positive control failed")
+    n = 0
+    for rname, (rf, p, table) in sorted(res.items()):
+        for const, attr, line in _keyed_effects_of(rf.node, p):
+            n += 1
+            key = f"{rf.qual}:{attr}@{const!r}"
+            skipping = []
+            for m in comp.methods.values():
+                if isinstance(m.node, ast.Lambda):
+                    continue
+                calls = [(c.lineno, c.func.attr, norm(c.args[0])) for c in m.own_nodes() if isinstance(c, ast.Call) and isinstance(c.func, ast.Attribute) and norm(c.func.value) == "self" and c.func.attr in res and len(c.args) == 1]
+                for ln, who, arg in calls:
+                    if who != rname:
+                        continue
+                    for ln2, who2, arg2 in calls:
+                        if who2 != rname and arg2 == arg and ln2 < ln:
+                            sf = res[who2][0]
+                            if (const, attr) not in {(c_, a_) for c_, a_, _ in _keyed_effects_of(sf.node, res[who2][1])}:
+                                skipping.append((m, ln2, who2))
+            if not skipping:
+                rep.ok(rid, key)
+            else:
+                m0, ln0, who0 = skipping[0]
+                sites = len({(m.name, ln) for m, ln, _ in skipping})
+                others = sorted({w for _, _, w in skipping})
+                rep.bad(rid, key, f"{rf.name} records `self.{attr}` when it resolves the name {const!r}, but at {sites} resolution site(s) (first: {m0.name}, line {ln0}) {', '.join(others)} is asked first and does not record it: when {const!r} is in {res[others[0]][2]} (a variable captured by a nested function) the fact is never recorded, and what depends on it at run time is missing", f"{rf.module.rel}:{line}")
+    rep.ok(rid, "name-resolvers", {"resolvers": sorted(res), "keyed_side_effects": n})
+
+
+def _keyed_effects_of(fnode: ast.AST, p: str) -> List[Tuple[str, str, int]]:
+    """(literal, attribute, line) for every `self.<attribute> = ...` that the function performs under `p == <literal>`."""
+    out: List[Tuple[str, str, int]] = []
+    for n in ast.walk(fnode):
+        if not isinstance(n, ast.If):
+            continue
+        consts: List[str] = []
+        for c in ast.walk(n.test):
+            if isinstance(c, ast.Compare) and len(c.ops) == 1 and norm(c.left) == p and isinstance(c.ops[0], (ast.Eq, ast.In)):
+                r = c.comparators[0]
+                if isinstance(r, ast.Constant) and isinstance(r.value, str):
+                    consts.append(r.value)
+                elif isinstance(r, (ast.Tuple, ast.List, ast.Set)):
+                    consts += [e.value for e in r.elts if isinstance(e, ast.Constant) and isinstance(e.value, str)]
+        if not consts:
+            continue
+        for st in n.body:
+            for a in ast.walk(st):
+                if isinstance(a, (ast.Assign, ast.AugAssign)):
+                    tg = a.targets if isinstance(a, ast.Assign) else [a.target]
+                    for t in tg:
+                        if isinstance(t, ast.Attribute) and norm(t.value) == "self":
+                            for k in consts:
+                                out.append((k, t.attr, a.lineno))
+    return out
